@@ -36,9 +36,21 @@ METHS = ("cdf", "icdf", "pdf")
 DRV_FAM = {
     "WeibullDistribution": 0, "LogNormalDistribution": 1, "NormalDistribution": 2,
     "LogNormalNormFitDistribution": 3, "ExponentiatedWeibullDistribution": 4,
-    "GeneralizedGammaDistribution": 5, "VonMisesDistribution": 6,
+    "GeneralizedGammaDistribution": 5, "VonMisesDistribution": 6, "GumbelScipyDistribution": 7,
 }
-SCIPY_SUB = {"GammaScipyDistribution": sts.gamma, "BetaScipyDistribution": sts.beta}
+SCIPY_SUB = {"GammaScipyDistribution": sts.gamma, "BetaScipyDistribution": sts.beta,
+             "GumbelScipyDistribution": sts.gumbel_r}
+# documented parameter order (constructor / positional call order, and the order of the Lean formulas' arguments);
+# independent of what the code under test reports as `.parameters`: for a ScipyDistribution subclass the documented
+# order is scipy's "(shape(s), loc, scale)"
+DOC_PARAMS = {
+    "WeibullDistribution": ["alpha", "beta", "gamma"], "LogNormalDistribution": ["mu", "sigma"],
+    "NormalDistribution": ["mu", "sigma"], "LogNormalNormFitDistribution": ["mu_norm", "sigma_norm"],
+    "ExponentiatedWeibullDistribution": ["alpha", "beta", "delta"],
+    "GeneralizedGammaDistribution": ["m", "c", "lambda_"], "VonMisesDistribution": ["kappa", "mu"],
+    "GammaScipyDistribution": ["a", "loc", "scale"], "BetaScipyDistribution": ["a", "b", "loc", "scale"],
+    "GumbelScipyDistribution": ["loc", "scale"],
+}
 
 
 # ---------------------------------------------------------------------------
@@ -121,7 +133,7 @@ def ref_ppf(name, theta, ps):
             return sts.gengamma.ppf(ps, t["m"], t["c"], 0, 1 / t["lambda_"])
         if name == "VonMisesDistribution":
             return sts.vonmises.ppf(ps, t["kappa"], t["mu"])
-        return SCIPY_SUB[name].ppf(ps, *t.values())
+        return SCIPY_SUB[name].ppf(ps, **t)  # by NAME (shape names, loc, scale): scipy's own keyword interface
 
 
 def probe_points(name, theta):
@@ -137,7 +149,8 @@ def probe_points(name, theta):
         if name != "VonMisesDistribution":
             off += [0.0, -1.0] if lo >= 0 else []
     else:
-        off = []
+        # support unbounded below (normal, Gumbel): a point far in the lower tail (cdf -> 0, pdf -> 0)
+        off = [float(xin[0] - 50.0 * span - 1.0)]
     if name == "VonMisesDistribution":
         hi = theta["mu"] + np.pi
         off += [hi, hi + 0.5, hi + 7.0]
@@ -351,7 +364,7 @@ def explore_case(ck, name, theta, theta0, jobs, pending):
         # --- explicit parameters = constructed instance (all, default instance, positional, single)
         variants = [("all_explicit_kw", cls(**theta0), (), dict(theta)),
                     ("all_explicit_default_instance", cls(), (), dict(theta)),
-                    ("all_explicit_positional", cls(**theta0), tuple(theta[p] for p in params), {})]
+                    ("all_explicit_positional", cls(**theta0), tuple(theta[p] for p in DOC_PARAMS[name]), {})]
         for label, inst, a, kw in variants:
             g, exc = call(inst, meth, arr, *a, **kw)
             if exc:
@@ -360,7 +373,7 @@ def explore_case(ck, name, theta, theta0, jobs, pending):
                 bad.append((_sig(name, meth, "explicit_equals_constructed"),
                             f"[{label}] {name}(**{theta0 if 'default' not in label else {}}).{meth}(x, {a or kw}) = "
                             f"{np.asarray(g).tolist()} but {name}(**{theta}).{meth}(x) = {v.tolist()}; x={arr.tolist()}"))
-        for p in params:
+        for p in DOC_PARAMS[name]:
             mixed = dict(theta0)
             mixed[p] = theta[p]
             g, exc = call(cls(**theta0), meth, arr, **{p: theta[p]})
@@ -402,24 +415,26 @@ def explore_case(ck, name, theta, theta0, jobs, pending):
         bad += consistency(name, theta, A, xs, ps, ref, lo)
     # --- documented formula
     if name in DRV_FAM:
+        # closed form evaluated by the Lean model at Float; parameters handed over in the DOCUMENTED order
         f = DRV_FAM[name]
-        th = [theta[p] for p in params]
+        th = [theta[p] for p in DOC_PARAMS[name]]
         for mi, meth in enumerate(METHS):
             if meth in ref:
                 jobs.append((f, mi, th, list(ps if meth == "icdf" else xs)))
                 pending.append((case, name, meth, ref[meth]))
-    else:
+    if name in SCIPY_SUB:
+        # a ScipyDistribution subclass IS the scipy law with the same parameter names: scipy called by keyword
+        # (independent of the order in which the code under test lists / forwards the parameters)
         d = SCIPY_SUB[name]
-        th = [theta[p] for p in params]
         for meth in METHS:
             if meth not in ref:
                 continue
             arr = ps if meth == "icdf" else xs
             with np.errstate(all="ignore"):
-                want = getattr(d, "ppf" if meth == "icdf" else meth)(arr, *th)
+                want = getattr(d, "ppf" if meth == "icdf" else meth)(arr, **theta)
             if not sentinel.same_values(ref[meth], want):
                 bad.append((_sig(name, meth, "documented_formula"),
-                            f"{name}(**{theta}).{meth} = {ref[meth].tolist()} but scipy.stats.{d.name}.{meth}(x, *{th}) = {want.tolist()}"))
+                            f"{name}(**{theta}).{meth} = {ref[meth].tolist()} but scipy.stats.{d.name}.{meth}(x, **{theta}) = {want.tolist()}"))
     nontrivial = len(xin) >= 5 and theta != cls().parameters
     ck.case(case, nontrivial=nontrivial, sample=(len(ck.samples) < 4))
     ck.count("explore:" + name)
@@ -448,6 +463,8 @@ def consistency(name, theta, A, xs, ps, ref, lo):
         strictly = xs < lo
         if not circ and np.any(pdf[strictly] != 0):
             bad.append((_sig(name, "pdf", "zero_off_support"), f"pdf {pdf[strictly].tolist()} at {xs[strictly].tolist()} (support starts at {lo})"))
+    if len(c) and not circ and not np.isfinite(lo) and not (c[0] <= 1e-9):
+        bad.append((_sig(name, "cdf", "limit_zero"), f"cdf({xc[0]!r}) = {c[0]!r} (support unbounded below)"))
     if len(c) and not (c[-1] >= 1 - 1e-9):
         bad.append((_sig(name, "cdf", "limit_one"), f"cdf({xc[-1]!r}) = {c[-1]!r}"))
     if np.any(np.isnan(pdf)) or np.any(pdf < 0):
